@@ -1,6 +1,7 @@
 package c05
 
 import (
+	"strings"
 	"testing"
 
 	"verif.local/engine/driver"
@@ -33,9 +34,21 @@ func TestVerif(t *testing.T) {
 func jobs(tier string) []driver.Job {
 	sp := tierSpace(tier)
 	var out []driver.Job
-	// long jobs first so that the tail of the run is short
+	// The evidence keeps the first samples it sees: the written-out samples come
+	// first, followed by a wave of sample-free sequential jobs, then the long
+	// concurrent jobs so that the tail of the run is short.
+	out = append(out, sampleJob(sp))
+	seq := seqJobs(sp)
+	var rest []driver.Job
+	for _, j := range seq {
+		if strings.HasPrefix(j.Name, "seq/oci.Store/") && len(out) < 33 {
+			out = append(out, j)
+		} else {
+			rest = append(rest, j)
+		}
+	}
 	out = append(out, concJobs(sp)...)
-	out = append(out, seqJobs(sp)...)
+	out = append(out, rest...)
 	out = append(out, proxyJobs(sp)...)
 	return out
 }
